@@ -4,12 +4,13 @@ import GoCrypt.Driver.Dispatch
 import GoCrypt.Driver.Base64
 import GoCrypt.Driver.Codec
 import GoCrypt.Driver.Scheme
+import GoCrypt.Driver.Argon2
 
 /-! Line-protocol driver: one operation per line in, one result line out. Core-only (links as an exe). -/
 
 open GoCrypt.Driver
 
-def handlers : List Handler := [pureHandler handleParse, handleDispatch, pureHandler handleBase64, handleCodec, pureHandler handleScheme]
+def handlers : List Handler := [pureHandler handleParse, handleDispatch, pureHandler handleBase64, handleCodec, pureHandler handleScheme, pureHandler handleArgon2]
 
 def step (st : DState) (line : String) : DState × String :=
   let ws := (line.trimAscii.toString.splitOn " ").filter (· ≠ "")
